@@ -25,10 +25,14 @@ Definition exc_content (st : state) (v : val) : list Z :=
 Definition final_obs (st : state) : list Z :=
   [Z.of_nat (length (stack st)); Z.of_nat (depth st); Z.of_nat (length (syms st))].
 
-(* [head; final; display lines in order] *)
+(* the call chain as the error display walks it: outermost frame first, (kind, current line) of each frame *)
+Definition chain_obs (st : state) : list Z :=
+  concat (map (fun f => [f_kind f; f_line f]) (rev (stack st))).
+
+(* [head; final; chain; display lines in order] *)
 Definition enc_run (r : res val) : list (list Z) :=
   match r with
-  | Ok v st => (0 :: enc_val 64 (heap st) (cls_name_of st) v) :: final_obs st :: rev (out st)
+  | Ok v st => (0 :: enc_val 64 (heap st) (cls_name_of st) v) :: final_obs st :: chain_obs st :: rev (out st)
   | Er e st =>
     (match e with
      | ERun c => [1; c]
@@ -36,7 +40,7 @@ Definition enc_run (r : res val) : list (list Z) :=
      | EGo m => 3 :: enc_msg m
      | EBreak => [4; 3]
      | EContinue => [4; 2]
-     end) :: final_obs st :: rev (out st)
-  | Fuel => [[7]; []]
-  | Crash w => [[8; w]; []]
+     end) :: final_obs st :: chain_obs st :: rev (out st)
+  | Fuel => [[7]; []; []]
+  | Crash w => [[8; w]; []; []]
   end.
